@@ -38,7 +38,11 @@ CFG = {
             "independent encoder (float/double positions, uchar rgb/rgba, int column, tri+quad faces, uchar/uint list "
             "counts, int/uint indices, float/double texcoords, per-vertex s/t, bare-integer tokens incl. 0, all three encodings; 1/3 of the ASCII ones with surplus trailing tokens on every line); PTS 3/4/7 columns with count-like first tokens (0, 1, points still owed) on at least one line of every file; .splat; SPZ "
             "v1/v2 x SH degree 0-3 x gzip stored/default/fast via an independent encoder.  EVERY byte cut for binary "
-            "files and for PLY headers, every token boundary for ASCII bodies (stride sampling only above 1200 / 8192 "
+            "files, PLY headers AND ASCII bodies / PTS (right after a separator - one or several blanks, tab -, after a sign, "
+            "a decimal point, an exponent marker, inside a number, after the value, on every line; PTS values are spelled "
+            "12 / 12.0 / 12. / 12e0 / 120e-1 / +12; a number cut in the middle is judged as the token it still reads as, "
+            "or must be rejected if it reads as none and the reader parses that column; inside the LAST promised value of an "
+            "ASCII PLY the prefix may be a valid file of its own: skipped) (stride sampling only above 1200 / 8192 "
             "cuts, last 64 always kept); every second PLY file again through a caller-configured ply.MeshReader, every SPZ "
             "file again through spz.ReadHeader; 8 big files per quick run (binary PLY cloud of 70001 vertices, PLY mesh / "
             "STL / .splat / SPZ+SH / PTS of 9001 records, ASCII PLY 4097, PTS 70001; thorough: sizes 4097..70001 for every "
